@@ -15,6 +15,7 @@ import CLModel.Proofs.C05DtdPipe
 import CLModel.Proofs.C05Clash
 import CLModel.Proofs.C05Decode
 import CLModel.Proofs.C05Ext
+import CLModel.Proofs.C05Sess
 namespace C05
 open P Rx
 
@@ -860,5 +861,175 @@ theorem compare_ftl_parser_raises (refFile file : ObsM.File) (hmr : ObsM.Modelle
   · intro refBody
     refine ⟨Pipe.reportOf p2.1 .nothing, ?_, rfl⟩
     simp only [Pipe.compareFtlP, hp2]
+
+/-! ## Sessions: ONE `ContentComparer` / ONE `L10nLinter` over a SEQUENCE of files (CLModel/Compare/PipeSession.lean)
+
+`compareProjects` creates one `ContentComparer` and calls `compare` for every file of every locale; `L10nLinter.lint`
+calls `lint_file` for every path.  `Pipe.compareSession ext jobs st` is that loop: the state `st` threaded through the jobs
+holds the comparer's observers and the junk counters (`Junk.junkid`, `XMLJunk.junkid`) — and nothing else.  The checker is
+a per-FILE value: `Pipe.Job.checker ext j ref = fileChecker ext (class by file name) j.file ref` is `getChecker(l10n)` +
+`set_reference(ref_entities)` evaluated inside the call for job `j`; it is no component of the state.
+
+The theorems below say that what C05 promises for a file holds for EVERY job of EVERY session, wherever the job stands:
+no raise, well-formed details, and the encoding warning for every shared string with U+FFFD — in the details of THAT file.
+A change of the code that lets a checker (or data a checker derived from one file: scan offsets, a memo of entities)
+survive into the next `compare` call is outside this model: the correspondence `c05.session` / `c05.lintsession` breaks,
+and the execution oracle of the session stream shows the file whose warning is lost.
+
+Hypotheses, all on the single job (`C05Sess.JobOK`, independent of the position in the session and of the counters): the
+ones of the one-comparison theorems — dtd texts hold scalar values, a Fluent body carries its ASTs, no string id begins
+with `_junk_` (F8), no merge staging for Android (F5).  For the statements about `toJSON()`: the paths of the files are
+not prefixes of each other (`C05Sess.PrefixFree`; C10's hypothesis, witness `C10.prefix_case_witness`). -/
+
+theorem walk_total : ∀ (fmt : P.Fmt) (s : Array Nat), ∃ es, P.walk fmt s = .done es := fun fmt s => parse_never_stuck fmt s
+
+theorem base_warns : C05Sess.BaseWarns := fun all h => by
+  obtain ⟨r, hr, hs, _⟩ := ufffd_warned all h
+  exact ⟨r, hr, hs⟩
+
+/-- **a session never raises**: every `compare` call of one comparer returns, for every list of covered jobs (text of the
+    five regex formats, Fluent / Android from the parser's output), any fresh observers with any filters and quiet level,
+    and ANY value of the junk counters at the start (whatever the process did before) -/
+theorem session_never_raises_partial (ext : Pipe.Ext) (jobs : List Pipe.Job) (hok : ∀ j ∈ jobs, C05Sess.JobOK j)
+    (q : Nat) (flts : List (Option ObsM.Filter)) (ids : Pipe.JunkIds) :
+    ∃ st os, Pipe.compareSession ext jobs { obs := ObsM.ObsList.init q (flts.map (ObsM.Obs.init q)), ids := ids } = .ok (st, os) := by
+  obtain ⟨st, os, _, h, _⟩ := C05Sess.session_spec ext walk_total merge_no_type_error base_warns jobs
+    { obs := ObsM.ObsList.init q (flts.map (ObsM.Obs.init q)), ids := ids } (Pipe.fresh_init q flts) hok
+  exact ⟨st, os, h⟩
+
+theorem sess_files_mem {jobs : List Pipe.Job} {H : List ObsM.Ev} (h : ∀ ev ∈ H, ∃ j ∈ jobs, ev.file = j.file) :
+    ∀ ev ∈ H, ev.file ∈ jobs.map (·.file) := by
+  intro ev hev
+  obtain ⟨j, hj, hf⟩ := h ev hev
+  exact List.mem_map.2 ⟨j, hj, hf.symm⟩
+
+theorem sess_files_modelled {jobs : List Pipe.Job} (hok : ∀ j ∈ jobs, C05Sess.JobOK j) :
+    ∀ f ∈ jobs.map (·.file), ObsM.Modelled f := by
+  intro f hf
+  obtain ⟨j, hj, rfl⟩ := List.mem_map.1 hf
+  exact (hok j hj).modelled
+
+/-- **U+FFFD is warned in EVERY job of EVERY session**: one comparer (`ContentComparer()` + one `Observer()`, fresh
+    process) compares the jobs in order.  For every job `j`, wherever it stands (`jobs = pre ++ j :: post`), with `ref` /
+    `l10n` the entity lists it parses at the counters the jobs before it left: every key shared by its two files whose
+    last localized entry's text contains U+FFFD has the warning `"� in: <key> at line l, column c for <key>"` in
+    `toJSON()["details"]` after the session, in the leaf whose path is the path of `j.file` — whatever the other files
+    contain, before or after, same format or not, same keys or not. -/
+theorem ufffd_warned_in_every_job (ext : Pipe.Ext) (jobs : List Pipe.Job) (hok : ∀ j ∈ jobs, C05Sess.JobOK j)
+    (hpf : C05Sess.PrefixFree (jobs.map (·.file))) :
+    ∃ st os, Pipe.compareSession ext jobs Pipe.SessSt.fresh = .ok (st, os) ∧
+      ∀ pre j post, jobs = pre ++ j :: post → ∃ ref l10n, C05Sess.JobParsed ext Pipe.SessSt.fresh pre j ref l10n ∧
+        ∀ k refent l10nent, Pipe.lookup ref k = .ok refent → Pipe.lookup l10n k = .ok l10nent → 0xFFFD ∈ l10nent.all →
+          ∃ parts, ObsM.partsOf j.file = .ok parts ∧
+            ∃ leaf ∈ (Pipe.sessReport st os).report.details, TreeM.joinSlash leaf.1 = TreeM.joinSlash parts ∧
+              ∃ line col : Int,
+                (ObsM.Cat.warning, ObsM.DVal.data (.str (Pipe.checkMsg (Pipe.encPrefix ++ Pipe.keyText l10nent.key) line col refent.key)))
+                  ∈ leaf.2 := by
+  obtain ⟨st, os, H, hs, hrun, hfiles, _, hjobs⟩ := C05Sess.session_spec ext walk_total merge_no_type_error base_warns jobs
+    Pipe.SessSt.fresh C05Sess.fresh_stdObs hok
+  refine ⟨st, os, hs, ?_⟩
+  intro pre j post hsplit
+  obtain ⟨ref, l10n, hparsed, hevs⟩ := hjobs pre j post hsplit
+  refine ⟨ref, l10n, hparsed, ?_⟩
+  intro k refent l10nent hlr hll hu
+  obtain ⟨line, col, hev⟩ := hevs k refent l10nent hlr hll hu
+  obtain ⟨parts, hparts, leaf, hleaf, hpath, hd⟩ := C05Sess.report_has_detail (jobs.map (·.file)) hpf (sess_files_modelled hok)
+    H st.obs hrun (sess_files_mem hfiles) .nothing j.file .warning _ hev (Or.inr (Or.inl rfl))
+  exact ⟨parts, hparts, leaf, hleaf, hpath, line, col, hd⟩
+
+/-- **the report of a session is well formed**: every item of `toJSON()["details"]` after the session is an error or a
+    warning with a text of one of the four message shapes, or a missing / obsolete key -/
+theorem session_report_wellformed_partial (ext : Pipe.Ext) (jobs : List Pipe.Job) (hok : ∀ j ∈ jobs, C05Sess.JobOK j)
+    (hpf : C05Sess.PrefixFree (jobs.map (·.file))) (st : Pipe.SessSt) (os : List Merge.Outcome)
+    (hs : Pipe.compareSession ext jobs Pipe.SessSt.fresh = .ok (st, os)) :
+    ∀ leaf ∈ (Pipe.sessReport st os).report.details, ∀ d ∈ leaf.2, DetailWF d := by
+  obtain ⟨st', os', H, hs', hrun, hfiles, hwf, _⟩ := C05Sess.session_spec ext walk_total merge_no_type_error base_warns jobs
+    Pipe.SessSt.fresh C05Sess.fresh_stdObs hok
+  rw [hs] at hs'
+  cases hs'
+  intro leaf hleaf d hd
+  obtain ⟨cat, f, data, rv, hev, rfl⟩ := C05Sess.report_details_from_history (jobs.map (·.file)) hpf (sess_files_modelled hok)
+    H st.obs hrun (sess_files_mem hfiles) .nothing leaf hleaf d hd
+  have := hwf _ hev
+  simp only [Pipe.EvWF] at this
+  rcases this with ⟨hc, t, rfl, hsh⟩ | ⟨hc, k, rfl⟩
+  · have hnf : cat.isFile = false := by rcases hc with rfl | rfl <;> rfl
+    exact Or.inl ⟨by simpa [ObsM.detailOf, hnf] using hc, t, by simp [ObsM.detailOf, hnf], hsh⟩
+  · have hnf : cat.isFile = false := by rcases hc with rfl | rfl <;> rfl
+    exact Or.inr ⟨by simpa [ObsM.detailOf, hnf] using hc, k, by simp [ObsM.detailOf, hnf]⟩
+
+/-- **what a checker may be shared on**: the checker built for a file is a function of its class (the file name), the
+    file's locale and — for a class with `needs_reference` — the parsed reference; of nothing else.  Two files that agree
+    on these get EQUAL checkers, so a cache keyed by exactly these is invisible in the model; anything else a checker
+    object would carry from one file into the next (scan offsets of one file's contents, a memo of its entities) has no
+    counterpart in `CkCtx` and cannot be keyed. -/
+theorem job_checker_key (ext : Pipe.Ext) (k : Pipe.CheckerKind) (f f' : ObsM.File) (r r' : List Pipe.PEnt)
+    (hl : f.locale = f'.locale) (hr : Pipe.needsReference k = true → r.map (·.raw) = r'.map (·.raw)) :
+    Pipe.fileChecker ext k f r = Pipe.fileChecker ext k f' r' := by
+  unfold Pipe.fileChecker Pipe.getChecker Pipe.setReference
+  cases k <;> simp_all [Pipe.needsReference]
+
+/-- **a lint session never raises**: one `L10nLinter.lint` over any list of covered files, with or without references,
+    from any value of the junk counters, returns one result list per file -/
+theorem lint_session_never_raises_partial (ext : Pipe.Ext) (srcs : List Pipe.LintSrc) (hok : ∀ s ∈ srcs, C05Sess.LintSrcOK s)
+    (ids : Pipe.JunkIds) : ∃ rss, Pipe.lintSession ext srcs ids = .ok rss ∧ rss.length = srcs.length :=
+  C05Sess.lintSession_ok ext walk_total srcs ids hok
+
+/-! ### non-vacuity: a session of three jobs over two formats, U+FFFD in the second and third file only -/
+
+/-- "a = 1\nb = 2\n" / "a = �\nb = 2\n" as `.properties` -/
+def exPropRef : Array Nat := #[97, 32, 61, 32, 49, 10, 98, 32, 61, 32, 50, 10]
+def exPropL10n : Array Nat := #[97, 32, 61, 32, 65533, 10, 98, 32, 61, 32, 50, 10]
+
+/-- f0/a.ini (clean), f1/a.ini (U+FFFD in `a`), f2/a.properties (U+FFFD in `a`) -/
+def exSession : List Pipe.Job :=
+  [{ src := .text .ini exRef exRef, file := Pipe.l10nFile [102, 48, 47, 97, 46, 105, 110, 105], mergeOn := false },
+   { src := .text .ini exRef exL10n, file := Pipe.l10nFile [102, 49, 47, 97, 46, 105, 110, 105], mergeOn := true },
+   { src := .text .properties exPropRef exPropL10n,
+     file := Pipe.l10nFile [102, 50, 47, 97, 46, 112, 114, 111, 112, 101, 114, 116, 105, 101, 115], mergeOn := false }]
+
+/-- a text job of a format other than dtd is covered as soon as no string id of its files begins with `_junk_` -/
+theorem jobOK_text (fmt : P.Fmt) (hd : fmt ≠ .dtd) (r l : Array Nat) (rel : Pipe.Text) (m : Bool)
+    (h1 : C05Clash.entityKeysOK fmt r = true) (h2 : C05Clash.entityKeysOK fmt l = true) :
+    C05Sess.JobOK { src := .text fmt r l, file := Pipe.l10nFile rel, mergeOn := m } := by
+  refine ⟨?_, ?_, ?_⟩
+  · intro mod hmod; simp [Pipe.l10nFile, Pipe.fileNamed] at hmod
+  · exact ⟨fun h => absurd h hd, h1, h2⟩
+  · intro h
+    cases fmt <;> simp [Pipe.JobSrc.cls, Pipe.clsOf] at h
+
+theorem exSession_ok : ∀ j ∈ exSession, C05Sess.JobOK j := by
+  intro j hj
+  simp only [exSession, List.mem_cons, List.not_mem_nil, or_false] at hj
+  rcases hj with rfl | rfl | rfl
+  · exact jobOK_text .ini (by decide) _ _ _ _ (by decide +kernel) (by decide +kernel)
+  · exact jobOK_text .ini (by decide) _ _ _ _ (by decide +kernel) (by decide +kernel)
+  · exact jobOK_text .properties (by decide) _ _ _ _ (by decide +kernel) (by decide +kernel)
+
+theorem exSession_prefixFree : C05Sess.PrefixFree (exSession.map (·.file)) := by
+  have p0 : ObsM.partsOf (Pipe.l10nFile [102, 48, 47, 97, 46, 105, 110, 105]) = .ok [[102, 48], [97, 46, 105, 110, 105]] := by decide +kernel
+  have p1 : ObsM.partsOf (Pipe.l10nFile [102, 49, 47, 97, 46, 105, 110, 105]) = .ok [[102, 49], [97, 46, 105, 110, 105]] := by decide +kernel
+  have p2 : ObsM.partsOf (Pipe.l10nFile [102, 50, 47, 97, 46, 112, 114, 111, 112, 101, 114, 116, 105, 101, 115])
+      = .ok [[102, 50], [97, 46, 112, 114, 111, 112, 101, 114, 116, 105, 101, 115]] := by decide +kernel
+  intro f1 h1 f2 h2 q1 q2 hq1 hq2 hpre
+  simp only [exSession, List.map_cons, List.map_nil, List.mem_cons, List.not_mem_nil, or_false] at h1 h2
+  rcases h1 with rfl | rfl | rfl <;> rcases h2 with rfl | rfl | rfl <;>
+    (first
+      | (rw [p0] at hq1; cases hq1)
+      | (rw [p1] at hq1; cases hq1)
+      | (rw [p2] at hq1; cases hq1)) <;>
+    (first
+      | (rw [p0] at hq2; cases hq2)
+      | (rw [p1] at hq2; cases hq2)
+      | (rw [p2] at hq2; cases hq2)) <;>
+    first
+      | rfl
+      | exact absurd hpre (by decide)
+
+/-- … so the session theorems apply to it: it never raises and all three files are judged, the second and the third — after
+    a clean file of the same format, resp. after two files of another format — included -/
+example : ∃ st os, Pipe.compareSession default exSession Pipe.SessSt.fresh = .ok (st, os) :=
+  let ⟨st, os, h, _⟩ := ufffd_warned_in_every_job default exSession exSession_ok exSession_prefixFree
+  ⟨st, os, h⟩
 
 end C05
